@@ -396,3 +396,6 @@ _share("C15", "load_in_memory_count", "C09")
 PROPS["C10"]["mir"].append(ob("bloom_merge_sound", "ob_bloom", "bloom_merge_sound"))
 # the blob-header acceptance predicate (exactly magic + version) is what init's classification of a damaged first block rests on
 PROPS["C06"]["kani"].append([h for h in PROPS["C17"]["kani"] if h.name == "c17_blob_header_layout_and_validation"][0])
+PROPS["C13"]["mir"].append(ob("observer_requests_typed", "ob_worker", "observer_requests_typed"))
+PROPS["C12"]["mir"].append(ob("observer_requests_typed_c12", "ob_worker", "observer_requests_typed"))
+PROPS["C13"]["mir"].append(ob("storage_background_requests", "ob_worker", "storage_background_requests"))
